@@ -134,3 +134,36 @@ pub proof fn lemma_match_unfold(e0: Expression, ids: Ids)
     reveal_with_fuel(wf, 2);
     reveal(ids_wf);
 }
+
+// ---- C03 bridge: what the condition parser establishes (wf_syntax) plus closed identifiers is exactly
+// the solver's well-formedness precondition
+pub open spec fn closed(e: Expression, ids: Ids) -> bool
+    decreases e,
+{
+    match e {
+        Expression::BooleanExpression(l, _, r) => closed(*l, ids) && closed(*r, ids),
+        Expression::Negate(x) => closed(*x, ids),
+        Expression::Match(_, x) => closed(*x, ids),
+        Expression::Identifier(i) => ids.contains_key(i),
+        _ => true,
+    }
+}
+
+pub proof fn lemma_syntax_to_wf(e: Expression, ids: Ids)
+    requires wf_syntax(e), closed(e, ids),
+    ensures wf(e, ids),   // P:C03
+    decreases e,
+{
+    reveal_with_fuel(wf, 2);
+    reveal_with_fuel(closed, 2);
+    match e {
+        Expression::BooleanExpression(l, op, r) => {
+            if !is_cmp(op) {
+                lemma_syntax_to_wf(*l, ids);
+                lemma_syntax_to_wf(*r, ids);
+            }
+        },
+        Expression::Negate(x) => { lemma_syntax_to_wf(*x, ids); },
+        _ => {},
+    }
+}
